@@ -62,7 +62,7 @@ def concretise(line):
 
 def random_file(r):
     names = ["a", "b", "host", "www.example.com", "www.example.com.", "X.Y", "printer.lan", "a.b.c.d.e", "mail",
-             "under_score", "0", "xn--caf-dma", "l" * 63, ("l" * 63 + ".") * 3 + "k" * 61]
+             "under_score", "0", "xn--caf-dma", "l" * 63, ("l" * 63 + ".") * 3 + "k" * 61, "*.apps.lan", "x.*.lan"]
     bad_names = ["a..b", ".a", "l" * 64, ("l" * 63 + ".") * 4, "café", "..", "a.b..", "xéy"]
     bad_addrs = ["zzz", "1.2.3", "1.2.3.4.5", "256.1.1.1", "01.2.3.4", "::g", "1:2:3:4:5:6:7:8:9", "1.2.3.4x", ":::",
                  "é", "12345::", "%eth0"]
@@ -91,9 +91,9 @@ def random_file(r):
             line += r.choice(blanks) + n
         y = r.random()
         if y < 0.15:
-            line += r.choice(["#c", "# c", "#", "#é", "# x é", "#1.2.3.4 zzz"])
+            line += r.choice(["#c", "# c", "#", "#é", "# x é", "#1.2.3.4 zzz", "#%", "# 80% full"])
         elif y < 0.30:
-            line += r.choice(blanks) + r.choice(["#c", "# comment", "#é x", "## 5.6.7.8 other"])
+            line += r.choice(blanks) + r.choice(["#c", "# comment", "#é x", "## 5.6.7.8 other", "# moved, 100% sure", "#%eth0"])
         elif y < 0.38:
             line += r.choice(blanks)
         lines.append(line)
